@@ -10,11 +10,16 @@ ID = "C05"
 LEAN_PROPS = ["FcpptProofs.Props.C05"]
 
 
+FAMILIES = ("alg", "alg2", "opt", "eith", "tup", "rec", "grid", "tree", "opts", "parse")
+
+
 def _repo_srcs():
     # fcppt::options / exceptions / type names are compiled in (options::flag / option constructors, parse_string)
     r = []
     for pat in ("libs/options/src/options/*.cpp", "libs/options/src/options/detail/*.cpp", "libs/options/impl/src/options/impl/*.cpp"):
         r += sorted(os.path.relpath(f, paths.REPO) for f in glob.glob(os.path.join(paths.REPO, pat)))
+    # the family units of the harness (absolute paths: compiled in parallel with harness/c05.cpp)
+    r += [os.path.join(paths.ROOT, "harness", f"c05_{k}.cpp") for k in FAMILIES]
     r += ["libs/core/src/exception.cpp", "libs/core/src/insert_extract_locale.cpp", "libs/core/src/from_std_string.cpp",
           "libs/core/src/type_name_from_info.cpp", "libs/core/src/type_name.cpp"]
     return r
@@ -27,9 +32,13 @@ HARNESS = {"src": "harness/c05.cpp", "repo_srcs": _repo_srcs(), "flags": ["-DC05
 TIE = ("hand-written transfer programs (FcpptModel/Model/C05.lean over the machine of Model/C05/Machine.lean) + differential "
        "correspondence: the real templates instantiated with an instrumented element type (identity, live/moved-from, copy/move/read "
        "log) and its move-only twin; only the event abstraction is compared")
-RULE = ("one op = one call of one registered operation: `<op> <T|M> <nargs> <cat>:<ids>... <par>...`; both sides print the shape of the "
+RULE = ("one op = one call of one registered operation (166): `<op> <T|M> <nargs> <cat>:<ids>... <par>...`; both sides print the shape of the "
         "result, the element objects of the result and of every argument afterwards (identity, `~` = moved-from), the identities copied, "
-        "the identities move-constructed out of an argument object and the identities touched after a move. Exhaustive per operation over "
+        "the identities move-constructed out of an argument object (in-place moves included, with multiplicity), the identities touched "
+        "after a move, the live values destroyed or overwritten during the call, and how many values the user's functions made from nothing. "
+        "Functions of several arguments hand every argument on, so each argument's value category is observed on its own and all mixed "
+        "combinations are enumerated; aliasing rows pass the same object twice / a value that is an element of the container. "
+        "Exhaustive per operation over "
         "every value category of every argument (l = T&, c = T const&, r = T&& / by value, i = documented in/out), every size 0..3 "
         "(thorough: 0..5) of every container argument, present/absent and every alternative, every answer table of the user's function "
         "(keep masks, break position, output counts, key present/absent), with the copyable element type and - wherever the "
@@ -45,6 +54,10 @@ ASSUMPTIONS = [
     "std::reverse performs floor(n/2) swaps of (i, n-1-i); std::swap is three moves",
     "the user's functions are those of the harness: an rvalue is moved through (same identity), an lvalue is read and a new value "
     "(identity + 100 j) derived from it, nothing is copied",
+    "std::remove_if / std::unique: the predicate is asked once per element in order, the kept elements behind the first gap are "
+    "move-assigned once each, the rest is erased; std::vector::erase(it) move-assigns every later element one place down; "
+    "std::list / std::map erase and std::list::sort / swap touch no element",
+    "copies of a closure made inside libstdc++ algorithms (algorithm::remove captures its value by copy) count as the one captured copy",
     "operations outside the registry (Op.all) are not covered",
 ]
 TRUSTED = ["harness/c05.cpp (instrumented element type, argument construction, canonical printing) and the line protocol (vh.hpp, Proto.lean)",
@@ -112,6 +125,18 @@ def grid_resize_shapes(maxn):
             yield (w * h,), [w, h, w2, h2]
 
 
+def same_sized(nargs, cap):
+    """all arguments have the same size 0..min(maxn, cap)"""
+    return lambda maxn: [(tuple([n] * nargs), []) for n in range(min(maxn, cap) + 1)]
+
+
+def no_args(pars):
+    return lambda maxn: [((), p) for p in pars(maxn)]
+
+
+never = lambda cats: False
+
+
 def one(pars, nargs=1):
     """every argument holds exactly one element"""
     return lambda maxn: [(tuple([1] * nargs), p) for p in pars]
@@ -141,7 +166,7 @@ def table():
         ("optfilter", [ANY], opt_sized(1, BIT), rv_only),
         ("optjoin", [ANY], opt_sized(1, lambda s: [[1]] if s[0] else [[0], [1]]), rv_only),
         ("optcombine", [ANY, ANY], opt_sized(2), rv_only),
-        ("optapply2", [ANY, ANY], opt_sized(2), rv_only),
+        ("optapply2", [ANY, ANY], opt_sized(2), always),
         ("optseq", [ANY], mask_shapes, rv_only),
         ("optcat", [ANY], mask_shapes, rv_only),
         ("opttocont", [ANY], opt_sized(1), rv_only),
@@ -169,7 +194,7 @@ def table():
         # tuples, arrays, records: the size is a template argument (0..3; two-container operations 0..2)
         ("tupmap", [ANY], sized(1, cap=3), always),
         ("tuppush", [ANY, ANY], sized(2, {1: [1]}, cap=3), rv_only),
-        ("tupconcat", ["r", "r"], sized(2, cap=2), always),
+        ("tupconcat", [ANY, ANY], sized(2, cap=2), rv_only),
         ("arrmap", [ANY], sized(1, cap=3), always),
         ("arrpush", [ANY, ANY], sized(2, {1: [1]}, cap=3), rv_only),
         ("arrjoin2", [ANY, ANY], sized(2, cap=2), rv_only),
@@ -194,6 +219,120 @@ def table():
         ("optsoption", ["r"], opt_sized(1), always),
         ("parseseq", [], lambda maxn: [((), [k]) for k in range(3)], always),
         ("parserep", [], lambda maxn: [((), [k]) for k in range(maxn + 2)], always),
+        # extension round 1: tuple / array / record
+        ("tupinvoke", [ANY], sized(1, cap=3), always),
+        ("tupapply2", ["r", ANY], same_sized(2, 3), always),
+        ("arrapply2", [ANY, ANY], same_sized(2, 3), always),
+        ("tupfromarr", [ANY], sized(1, cap=3), rv_only),
+        ("tupmake2", [ANY, ANY], one([[]], 2), rv_only),
+        ("arrmake2", [ANY, ANY], one([[]], 2), rv_only),
+        ("recctor2", [ANY, ANY], one([[0], [1]], 2), rv_only),
+        ("tupinit", [], no_args(lambda m: [[k] for k in range(4)]), always),
+        ("arrinit", [], no_args(lambda m: [[k] for k in range(4)]), always),
+        ("recinit", [], no_args(lambda m: [[k] for k in range(4)]), always),
+        # optional / either / variant: constructors, assign, to_exception, maybe*, construct, try_call, loop
+        ("optmake", [ANY], one([[]]), rv_only),
+        ("optctor", [ANY], one([[]]), rv_only),
+        ("optassign", ["i", "r"], sized(2, {0: [0, 1], 1: [1]}), always),
+        ("opttoexc", [ANY], opt_sized(1), rv_only),
+        ("optmakeif", [], no_args(lambda m: [[0], [1]]), always),
+        ("optmaybe", [ANY], opt_sized(1), always),
+        ("optmaybevoid", [ANY], opt_sized(1), always),
+        ("optmaybemulti2", [ANY, ANY], opt_sized(2), always),
+        ("optmaybevoidmulti2", [ANY, ANY], opt_sized(2), always),
+        ("optcopyvalue", ["lc"], opt_sized(1), never),
+        ("eithmakesucc", [ANY], one([[]]), rv_only),
+        ("eithmakefail", [ANY], one([[]]), rv_only),
+        ("eithctor", [ANY], one(BIT(0)), rv_only),
+        ("eithconstruct", [], no_args(lambda m: [[0], [1]]), always),
+        ("eithtrycall", [], no_args(lambda m: [[0], [1]]), always),
+        ("eithtoexc", [ANY], one(BIT(0)), rv_only),
+        ("eitherrfromopt", [ANY], opt_sized(1), rv_only),
+        ("eithseqerr", [ANY], sized(1, par=lambda s: masks(s[0], 1)), always),
+        ("eithloop", [], no_args(lambda m: [[k] for k in range(m + 1)]), always),
+        ("varctor", [ANY], one([[0], [1], [2]]), rv_only),
+        # extension round 2: algorithm / container helpers (LC: `Range &` / `Range const &`)
+        ("algfind", ["lc", "c"], sized(2, {1: [1]}, lambda s: [[k] for k in range(s[0] + 1)]), always),
+        ("algindexof", ["lc", "c"], sized(2, {1: [1]}, lambda s: [[k] for k in range(s[0] + 1)]), always),
+        ("algcontains", ["lc", "c"], sized(2, {1: [1]}, lambda s: [[k] for k in range(s[0] + 1)]), always),
+        ("algfindif", ["lc"], sized(1, par=lambda s: [[k] for k in range(s[0] + 1)]), always),
+        ("algfindby", ["lc"], sized(1, par=lambda s: [[k] for k in range(s[0] + 1)]), always),
+        ("alggenerate", [], no_args(lambda m: [[k] for k in range(m + 2)]), always),
+        ("algmapiter", ["i"], sized(1, par=lambda s: masks(s[0], 1)), always),
+        ("algmapiter2", ["i"], sized(1, par=lambda s: masks(s[0], 1)), always),
+        ("algseqiter", ["i"], sized(1, par=lambda s: masks(s[0], 1)), always),
+        ("continsert", ["i", ANY], sized(2, {1: [1]}, lambda s: [[k] for k in range(s[0] + 1)]), lambda cats: cats[1] == "r"),
+        ("setunion", ["lc", "lc"], lambda maxn: list(sized(2, par=lambda s: [[0]])(maxn)) + [((n, 0), [1]) for n in range(maxn + 1)], never),
+        ("setdiff", ["lc", "lc"], lambda maxn: list(sized(2, par=lambda s: [[0]])(maxn)) + [((n, 0), [1]) for n in range(maxn + 1)], never),
+        ("setinter", ["lc", "lc"], lambda maxn: list(sized(2, par=lambda s: [[0]])(maxn)) + [((n, 0), [1]) for n in range(maxn + 1)], never),
+        ("mapvalcopy", ["lc"], sized(1), never),
+        ("atopt", ["lc"], sized(1, par=lambda s: [[k] for k in range(s[0] + 1)]), always),
+        ("maybeback", ["lc"], sized(1), always),
+        ("maybefront", ["lc"], sized(1), always),
+        ("findoptmapped", ["lc"], sized(1, par=lambda s: [[k] for k in range(s[0] + 1)]), always),
+        ("indexmapget", ["i"], sized(1, par=lambda s: [[k] for k in range(s[0] + 3)]), always),
+        # tree members (root value + children as two arguments; assignment: target + source)
+        ("treectortree", ["l", "l"], sized(2, {0: [1]}, cap=4), never),
+        ("treectortree", ["c", "c"], sized(2, {0: [1]}, cap=4), never),
+        ("treectortree", ["r", "r"], sized(2, {0: [1]}, cap=4), always),
+        ("treectorchildren", ["r", "r"], sized(2, {0: [1]}, cap=4), always),
+        ("treeassign", ["i", "i", "l", "l"], sized(4, {0: [1], 2: [1]}, cap=3), never),
+        ("treeassign", ["i", "i", "c", "c"], sized(4, {0: [1], 2: [1]}, cap=3), never),
+        ("treeassign", ["i", "i", "r", "r"], sized(4, {0: [1], 2: [1]}, cap=3), always),
+        ("treeselfassign", ["i", "i"], sized(2, {0: [1]}, lambda s: [[0]], cap=4), never),
+        ("treeselfassign", ["i", "i"], sized(2, {0: [1]}, lambda s: [[1]], cap=4), always),
+        ("treesetvalue", ["i", ANY], one([[]], 2), lambda cats: cats[1] == "r"),
+        ("treepushfrontval", ["i", ANY], sized(2, {0: [1, 2, 3], 1: [1]}), lambda cats: cats[1] == "r"),
+        ("treeinsertval", ["i", ANY], sized(2, {0: [1, 2, 3], 1: [1]}, lambda s: [[k] for k in range(s[0])]), lambda cats: cats[1] == "r"),
+        ("treepushfronttree", ["i", "r"], sized(2, {0: [1, 2, 3], 1: [1]}), always),
+        ("treeinserttree", ["i", "r"], sized(2, {0: [1, 2, 3], 1: [1]}, lambda s: [[k] for k in range(s[0])]), always),
+        ("treepopback", ["i"], lambda maxn: [((n,), []) for n in range(1, maxn + 2)], always),
+        ("treepopfront", ["i"], lambda maxn: [((n,), []) for n in range(1, maxn + 2)], always),
+        ("treeerase", ["i"], lambda maxn: [((n,), [i]) for n in range(2, maxn + 2) for i in range(n - 1)], always),
+        ("treeeraserange", ["i"], lambda maxn: [((n,), [i, j]) for n in range(1, maxn + 2) for j in range(n) for i in range(j + 1)], always),
+        ("treeclear", ["i"], lambda maxn: [((n,), []) for n in range(1, maxn + 2)], always),
+        ("treesort", ["i"], lambda maxn: [((n,), []) for n in range(1, maxn + 2)], always),
+        # grid constructors / assignment / fill
+        ("gridctorfn", [], no_args(lambda m: [list(d) for d in (DIMS_MORE if m > 3 else DIMS)]), always),
+        ("gridctorvalue", ["c"], lambda maxn: [((1,), list(d)) for d in (DIMS_MORE if maxn > 3 else DIMS)], never),
+        ("gridctorrows2", ["r", "r"], lambda maxn: [((1, 1), []), ((2, 2), [])], always),
+        ("gridstaticrow2", [ANY, ANY], one([[]], 2), rv_only),
+        ("gridctorgrid", [ANY], grid_shapes(1), rv_only),
+        ("gridassign", ["i", ANY], sized(2, cap=3), lambda cats: cats[1] == "r"),
+        ("gridselfassign", ["i"], sized(1, par=lambda s: [[0]], cap=3), never),
+        ("gridselfassign", ["i"], sized(1, par=lambda s: [[1]], cap=3), always),
+        ("gridfill", ["i"], sized(1, cap=4), always),
+        # extension round 3: parse / options results moved through the combinators
+        ("parsealt", [], no_args(lambda m: [[0], [1], [2]]), always),
+        ("parseopt", [], no_args(lambda m: [[0], [1]]), always),
+        ("parseconv", [], no_args(lambda m: [[0], [1]]), always),
+        ("parsestruct", [], no_args(lambda m: [[0], [1], [2]]), always),
+        ("parsesep", [], no_args(lambda m: [[k] for k in range(m + 2)]), always),
+        ("parselist", [], no_args(lambda m: [[k] for k in range(m + 2)]), never),
+        ("parserepplus", [], no_args(lambda m: [[k] for k in range(m + 2)]), always),
+        ("optsarg", [], no_args(lambda m: [[0], [1]]), always),
+        ("optsoptional", [], no_args(lambda m: [[0], [1]]), always),
+        ("optsproduct", [], no_args(lambda m: [[0], [1], [2]]), always),
+        ("optsmany", [], no_args(lambda m: [[k] for k in range(m + 2)]), always),
+        ("optssum", [], no_args(lambda m: [[0], [1]]), always),
+        # extension round 4: the same object twice, other container kinds, swap, record::set
+        ("treeswap", ["i", "i", "i", "i"], sized(4, {0: [2], 3: [0]}, cap=3), always),
+        ("treesortpred", ["i"], lambda maxn: [((n,), []) for n in range(1, maxn + 2)], always),
+        ("joinself", ["lc"], sized(1), never),
+        ("arrjoinself", ["lc"], sized(1, cap=2), never),
+        ("tupconcatself", ["lc"], sized(1, cap=2), never),
+        ("optcombineself", ["lc"], opt_sized(1), never),
+        ("algmaplist", [ANY], sized(1), always),
+        ("algmaparr", [ANY], sized(1, cap=3), always),
+        ("algmaptup", [ANY], sized(1, cap=3), always),
+        ("algloopbrktup", [ANY], sized(1, par=lambda s: [[k] for k in range(s[0] + 1)], cap=3), always),
+        ("recset", ["i", ANY], sized(2, {0: [1, 2, 3], 1: [1]}, lambda s: [[k] for k in range(s[0])]), lambda cats: cats[1] == "r"),
+        # in-place compaction: remove_if / unique_if with every keep mask (the first element of unique_if always stays), remove, unique
+        ("algremoveif", ["i"], sized(1, par=lambda s: masks(s[0], 1), cap=5), always),
+        ("alguniqueif", ["i"], sized(1, par=lambda s: [m for m in masks(s[0], 1) if not m or m[0] == 1], cap=5), always),
+        ("algunique", ["i"], sized(1), always),
+        ("algseqitervec", ["i"], sized(1, par=lambda s: masks(s[0], 1), cap=5), always),
+        ("algremove", ["i", "c"], sized(2, {1: [1]}), never),
         ("eithfirst", [], lambda maxn: [((), list(m)) for ln in range(maxn + 1) for m in itertools.product([0, 1], repeat=ln)], always),
     ]
 
@@ -258,6 +397,36 @@ def sampled_table():
         ("treepushval", ["i", ANY], {1: 1}, none, lambda cats: cats[1] == "r"),
         ("treerelease", ["i"], {}, lambda r, s: [r.below(s[0] - 1)], always),
         ("treemap", [ANY], {}, none, always),
+        # extension rounds
+        ("algfind", ["lc", "c"], {1: 1}, lambda r, s: [r.below(s[0] + 1)], always),
+        ("algindexof", ["lc", "c"], {1: 1}, lambda r, s: [r.below(s[0] + 1)], always),
+        ("algfindif", ["lc"], {}, lambda r, s: [r.below(s[0] + 1)], always),
+        ("algfindby", ["lc"], {}, lambda r, s: [r.below(s[0] + 1)], always),
+        ("algmapiter", ["i"], {}, lambda r, s: [r.below(2) for _ in range(s[0])], always),
+        ("algmapiter2", ["i"], {}, lambda r, s: [r.below(2) for _ in range(s[0])], always),
+        ("algseqiter", ["i"], {}, lambda r, s: [r.below(2) for _ in range(s[0])], always),
+        ("continsert", ["i", ANY], {1: 1}, lambda r, s: [r.below(s[0] + 1)], lambda cats: cats[1] == "r"),
+        ("setunion", ["lc", "lc"], {}, lambda r, s: [0], never),
+        ("setdiff", ["lc", "lc"], {}, lambda r, s: [0], never),
+        ("mapvalcopy", ["lc"], {}, none, never),
+        ("atopt", ["lc"], {}, lambda r, s: [r.below(s[0] + 1)], always),
+        ("indexmapget", ["i"], {}, lambda r, s: [r.below(s[0] + 4)], always),
+        ("eithseqerr", [ANY], {}, lambda r, s: [0 if r.chance(1, 6) else 1 for _ in range(s[0])], always),
+        ("treectortree", ["r", "r"], {0: 1}, none, always),
+        ("treeassign", ["i", "i", "r", "r"], {0: 1, 2: 1}, none, always),
+        ("treepopback", ["i"], {}, none, always),
+        ("treepopfront", ["i"], {}, none, always),
+        ("treeerase", ["i"], {}, lambda r, s: [r.below(s[0] - 1)], always),
+        ("treeclear", ["i"], {}, none, always),
+        ("treesort", ["i"], {}, none, always),
+        ("treeinsertval", ["i", ANY], {1: 1}, lambda r, s: [r.below(s[0])], lambda cats: cats[1] == "r"),
+        ("gridfill", ["i"], {}, none, always),
+        ("gridassign", ["i", ANY], {}, none, lambda cats: cats[1] == "r"),
+        ("joinself", ["lc"], {}, none, never),
+        ("algmaplist", [ANY], {}, none, always),
+        ("algremoveif", ["i"], {}, lambda r, s: [r.below(2) for _ in range(s[0])], always),
+        ("alguniqueif", ["i"], {}, lambda r, s: [1] + [r.below(2) for _ in range(s[0] - 1)], always),
+        ("algseqitervec", ["i"], {}, lambda r, s: [r.below(2) for _ in range(s[0])], always),
     ]
 
 
@@ -282,7 +451,8 @@ def sampled_lines(rng, count):
                 mask = [1 if rng.chance(1, 5) else 0 for _ in range(ln)]
                 out.append("eithfirst " + rng.choice("TM") + " 0 " + " ".join(map(str, mask)))
             else:
-                out.append("parserep " + rng.choice("TM") + f" 0 {rng.range(4, 8)}")
+                name = rng.choice(["parserep", "parsesep", "parserepplus", "optsmany", "alggenerate", "eithloop"])
+                out.append(name + " " + rng.choice("TM") + f" 0 {rng.range(4, 8)}")
             continue
         name, cat_sets, fixed, par, mo = rows[k]
         cats = [rng.choice(list(cs)) for cs in cat_sets]
@@ -308,10 +478,11 @@ def batches(rng, tier):
 MANIFEST = {
     "level_text": ("Machine-checked proof (Lean 4) over transfer programs: every registered generic operation (Op.all in "
                    "FcpptModel/Model/C05.lean) is a program over per-element transfers (move / copy / hand on as lvalue / whole-container "
-                   "move / pop / swap) that mirrors the template's control flow; for every operation, every argument size and every value "
+                   "move / pop / erase / swap / in-place shift) that mirrors the template's control flow; for every operation, every argument size and every value "
                    "category the interpreter's event abstraction satisfies rvalue_no_copy, rvalue_moved_at_most_once, no_read_after_move, "
-                   "lvalue_unchanged, result_at_most_once, conserved, accepts_move_only, nothing_lost (all but the four operations that "
-                   "drop by design) and rvalue_exactly_once_in_result (the 42 operations documented to keep all elements). The programs "
+                   "lvalue_unchanged, result_at_most_once, conserved, accepts_move_only, nothing_lost (all but the 24 operations that "
+                   "destroy values by design: dropped failures, overwriting assignments, erasure) and rvalue_exactly_once_in_result (the 72 "
+                   "operations documented to keep all elements). The programs "
                    "are tied to the code by a "
                    "differential correspondence that instantiates the real templates with an instrumented element type and its move-only "
                    "twin and enumerates all small shapes."),
@@ -322,3 +493,30 @@ MANIFEST = {
     "technique": "Lean 4 proof over hand-written transfer programs + exhaustive small-shape differential correspondence with an instrumented element type (ASan/UBSan harness)",
     "design_ref": "DESIGN.md §5 C05",
 }
+
+
+def _diff_batches(harness, tier="quick", seed=1):
+    """Diagnostic (used for the mutation tables of notes/C05.md): feed every batch to a given harness binary (e.g. the one the runner
+    built for a mutated tree, newest entry of .cache/harness/) and to the Lean driver and print, per batch, the number of differing
+    lines and the first one.  `python3 -m props.c05 <harness binary> [tier]`"""
+    import subprocess
+    from vlib.rng import Rng
+    driver = os.path.join(paths.ROOT, "lean", ".lake", "build", "bin", "driver")
+    total = 0
+    for b in batches(Rng(seed), tier):
+        if not b.ops:
+            continue
+        inp = "\n".join(b.ops) + "\n"
+        impl = subprocess.run([harness], input=inp, capture_output=True, text=True).stdout.split("\n")
+        model = subprocess.run([driver, ID], input=inp, capture_output=True, text=True).stdout.split("\n")
+        d = [(o, x, y) for o, x, y in zip(b.ops, impl, model) if x != y and not equivalent(o, x, y)]
+        total += len(b.ops)
+        if d:
+            o, x, y = d[0]
+            print(f"{b.name}: {len(d)} differing line(s); first: {o}\n    impl : {x}\n    model: {y}")
+    print("ops", total)
+
+
+if __name__ == "__main__":
+    import sys
+    _diff_batches(sys.argv[1], *(sys.argv[2:3]))
